@@ -24,6 +24,7 @@ type pReq struct {
 	Out  int64
 	Echo int64
 	Fail bool
+	Quiet bool // no rule of this request returns a value
 	Fire bool // the first rule this request runs triggers the next planned update from inside the rule
 }
 
@@ -97,7 +98,7 @@ type poolCase struct {
 var pNames = []string{"a", "b", "c", "d", "e", "f"}
 
 func pRuleText(r pRule, body string) string {
-	return fmt.Sprintf("rule \"%s\" \"v%d\" salience %d\nbegin\n%s return %d * 1000 + q.Id\nend\n", r.Name, r.Ver, r.Sal, body, r.Ver)
+	return fmt.Sprintf("rule \"%s\" \"v%d\" salience %d\nbegin\n%s if q.Quiet {\n  q.Echo = q.Id\n } else {\n  return %d * 1000 + q.Id\n }\nend\n", r.Name, r.Ver, r.Sal, body, r.Ver)
 }
 
 const stdBody = " q.Out = q.Id\n if q.Fire {\n  upd(q.Id)\n }\n park(q.Id)\n if q.Fail {\n  boom()\n }\n q.Echo = q.Id\n"
@@ -644,11 +645,50 @@ func runPoolCase(c *poolCase) {
 			}
 		}
 		c.Execs = execs
+		// requests that end in a panic in the caller's goroutine (nil stop tag) must hand their instance back too
+		open := newParker(0)
+		open.openGate()
+		h.pk.Store(open)
+		var names []string
+		for _, ru := range c.Init {
+			names = append(names, ru.Name)
+		}
+		for k := 0; k < 2*int(c.Max); k++ {
+			func() {
+				defer func() { _ = recover() }()
+				data := map[string]interface{}{"q": &pReq{Id: int64(700 + k)}}
+				switch k % 4 {
+				case 0:
+					h.pool.ExecuteWithStopTagDirect(data, true, nil)
+				case 1:
+					h.pool.ExecuteSelectedRulesWithControlAndStopTag(data, true, nil, names)
+				case 2:
+					h.pool.ExecuteMixModelWithStopTagDirect(data, nil)
+				default:
+					h.pool.ExecuteSelectedRulesWithControlAndStopTagAsGivenSortedName(data, true, nil, names)
+				}
+			}()
+		}
+		time.Sleep(5 * time.Millisecond)
 		// the instances must all be back: max simultaneous parkers again
 		c.Execs2, c.Peak2 = h.round(ids(50, int(c.Max)), nil, 800*time.Millisecond)
 	case "iso":
+		// requests none of whose rules returns anything: their (empty) result maps must stay empty
+		var quiet []pExec
+		for k := 0; k < int(c.Max)+1; k++ {
+			h.pk.Store(newParker(0))
+			h.pk.Load().(*parker).openGate()
+			quiet = append(quiet, h.requestWith([]string{"sort", "em", "mix"}[k%3], &pReq{Id: int64(500 + k), Quiet: true}, nil))
+			time.Sleep(2 * time.Millisecond)
+		}
 		execs, _ := h.round(ids(1, c.Clients), nil, 500*time.Millisecond)
 		c.Execs = execs
+		for _, ex := range quiet {
+			if len(ex.raw) != 0 || len(ex.Results) != 0 {
+				c.Mutated = true
+				c.Note = fmt.Sprintf("the result map handed to request %d (no rule returned a value) holds %v after later requests", ex.Id, valuesOf(ex.raw))
+			}
+		}
 		// a later request that injects nothing must not see anybody's q
 		pr := h.request(77, false, false)
 		c.Probe = &pr
